@@ -33,7 +33,9 @@ func registry() []*Check {
 			c.Thorough = append(c.Thorough, Scenario{Name: c.ID + "/api-wiring", Build: plain, Pkg: "root", Test: "TestVerif_API", Params: "prop=" + c.ID + ",depth=5", Shards: 16, BudgetS: 600})
 			if c.ID != "C10" && c.ID != "C11" {
 				c.Quick = append(c.Quick, Scenario{Name: c.ID + "/api-pressure-m1", Build: plain, Pkg: "root", Test: "TestVerif_APIPressure", Params: "prop=" + c.ID + ",depth=5,max=1", Shards: 8, BudgetS: 60})
+				c.Quick = append(c.Quick, Scenario{Name: c.ID + "/api-pressure-ext", Build: plain, Pkg: "root", Test: "TestVerif_APIPressure", Params: "prop=" + c.ID + ",depth=3,max=1,ext=1", Shards: 4, BudgetS: 60})
 				c.Thorough = append(c.Thorough,
+					Scenario{Name: c.ID + "/api-pressure-ext", Build: plain, Pkg: "root", Test: "TestVerif_APIPressure", Params: "prop=" + c.ID + ",depth=5,max=1,ext=1", Shards: 16, BudgetS: 900},
 					Scenario{Name: c.ID + "/api-pressure-m1", Build: plain, Pkg: "root", Test: "TestVerif_APIPressure", Params: "prop=" + c.ID + ",depth=7,max=1", Shards: 16, BudgetS: 900},
 					Scenario{Name: c.ID + "/api-pressure-m2", Build: plain, Pkg: "root", Test: "TestVerif_APIPressure", Params: "prop=" + c.ID + ",depth=6,max=2", Shards: 16, BudgetS: 900})
 			}
